@@ -183,7 +183,7 @@ type excerptT struct {
 func errorExcerpts(c *explore.Ctx) {
 	leads := []string{"", "[", `{"k":`, "[1,", `{"k":"v","n":`, "  "}
 	bads := []string{"?", `"`, "tru?", "-", `"\u12`, "1.e", `"\q`, "]", `{"a" 1`, "nul"}
-	tails := []string{"\x80", "\xbf\xbf", "é", "\xc3", "€", "\xe2\x82", "😀", "\xf0\x9f\x98", "é\x80\x80\x80", "\xff", "a\x80\x80\x80\x80\x80\x80\x80\x80", ""}
+	tails := []string{"\x80", "\xbf\xbf", "é", "\xc3", "€", "\xe2\x82", "😀", "\xf0\x9f\x98", "é\x80\x80\x80", "\xff", "a\x80\x80\x80\x80\x80\x80\x80\x80", "", "\xe2", "\xe2\x80", "\xe2\x80\xa8", "<", "\\"}
 	lead := leads[c.Choose(len(leads))]
 	bad := bads[c.Choose(len(bads))]
 	var n int64
@@ -223,7 +223,15 @@ func errorExcerpts(c *explore.Ctx) {
 				guard(c, "Compact", nil, func() { json.Compact(new(bytes.Buffer), doc) })
 				guard(c, "Indent", nil, func() { json.Indent(new(bytes.Buffer), doc, "", " ") })
 				guard(c, "RawMessage.MarshalJSON", nil, func() { json.Marshal(json.RawMessage(doc)) })
-				n += 10
+				// a trusted RawMessage is not checked, but it is still walked (compacted, HTML-escaped)
+				guard(c, "Append(RawMessage, TrustRawMessage|EscapeHTML)", nil, func() { json.Append(nil, json.RawMessage(doc), json.TrustRawMessage|json.EscapeHTML) })
+				guard(c, "Append(RawMessage, TrustRawMessage)", nil, func() { json.Append(nil, []any{json.RawMessage(doc)}, json.TrustRawMessage) })
+				guard(c, "Encoder(trusted RawMessage)", nil, func() {
+					e := json.NewEncoder(io.Discard)
+					e.SetTrustRawMessage(true)
+					e.Encode(map[string]json.RawMessage{"k": doc})
+				})
+				n += 13
 			}
 		}
 	}
@@ -958,7 +966,7 @@ func Spec() *explore.Spec {
 			{Name: "ring-targets", ShardDepth: 2, HangSeconds: 60, FatalPerCase: true, Body: ringDecode, Doc: "14 decode targets whose interfaces and pointers form a ring (any / named empty interface / mixed, length 1-3, through **any, entered from outside, struct fields, slice elements, map values, a struct holding itself in a method-bearing interface) x 11 documents x 5 entry points: the call returns, without a panic or a stack overflow"},
 			{Name: "layouts-encode", ShardDepth: 1, Body: layoutsEncode, Doc: "every type shape of C01 plus pointer-shaped leaves nested 1-3 levels in single-field structs and one-element arrays x boundary values x {by value, by pointer, inside []any, as map value, in a typed slice, in a typed map} x {Marshal, Encoder with indent, Append(0)}"},
 			{Name: "layouts-decode", ShardDepth: 1, Body: layoutsDecode, Doc: "the same type shapes x (34 generic documents incl. mismatching, truncated and malformed ones + the encodings of the type's own boundary values) x {Unmarshal into *T and **T, Decoder with UseNumber, Parse with ZeroCopy|DisallowUnknownFields|DontMatchCaseInsensitiveStructFields}"},
-			{Name: "error-excerpts", ShardDepth: 2, Body: errorExcerpts, Doc: "malformed documents lead + erroneous token + 0..70 bytes (ASCII, spaces, two-byte runes) + one of 12 tails (stray continuation bytes, complete and cut multi-byte runes) for 6 leads x 10 erroneous tokens, through 10 entry points (Valid, Unmarshal into any / struct / []string, Parse, Decoder, Tokenizer, Compact, Indent, Marshal of a RawMessage): what follows the place of the error, at any distance, never makes the call panic"},
+			{Name: "error-excerpts", ShardDepth: 2, Body: errorExcerpts, Doc: "malformed documents lead + erroneous token + 0..70 bytes (ASCII, spaces, two-byte runes) + one of 17 tails (stray continuation bytes, complete and cut multi-byte runes incl. the line separators the encoder escapes, '<', a backslash) for 6 leads x 10 erroneous tokens, through 13 entry points (Valid, Unmarshal into any / struct / []string, Parse, Decoder, Tokenizer, Compact, Indent, Marshal of a RawMessage, Append and Encoder with the RawMessage trusted): what follows the place of the error, at any distance, never makes the call panic"},
 			{Name: "page-edge", ShardDepth: 2, Body: pageEdge, Doc: "documents placed so that they end at the last byte before an inaccessible page, and so that they start at the first byte behind one: all byte strings <= 4 over a 26-byte alphabet, strings of length 0..80 with each alphabet byte in each of the last 9 positions (closed, unclosed, inside an array), numbers / literals / escapes / containers cut at every length: Valid, Unmarshal into any and string, Tokenizer (with String), Escape, Unescape touch nothing outside the document (a fault is caught) and answer as they do for a copy elsewhere; the same documents as windows of a larger buffer whose spare capacity holds quotes, backslashes, digits, closers, commas or letters"},
 			{Name: "corrupt-typed", ShardDepth: 1, Body: corruptTyped, Doc: "typed documents (encodings of boundary values) truncated at every offset and with every byte replaced by each of 14 structural bytes, decoded into their own type"},
 			{Name: "ladder-decode", ShardDepth: 3, HangSeconds: 300, MaxWorkers: 8, Body: ladderDecode, Doc: "documents nested 100 ... 100,000 (thorough 1,000,000 and 5,000,000) deep in 6 shapes (arrays, objects, mixed, recursive-struct shaped), closed and unclosed, through 14 entry points (Valid, Unmarshal into any / RawMessage / struct{} / []any / map / recursive struct types, Tokenizer, Decoder, Compact, Indent, Parse)"},
